@@ -22,7 +22,15 @@ RULE = ("dense / sparse / Kruskal / Tucker / sum holders of small-integer data o
         "every array operand handed over in C order, F order, as a strided view of a larger buffer, as a transposed "
         "view, and mixed (vectors also as column / row arrays where accepted); scale with every accepted factor kind "
         "(pyttb.tensor, sptensor, 1-d ndarray, raw N-d ndarray in each layout) over every non-empty subset of modes "
-        "of shapes with pairwise distinct extents; the same array held five ways; plus a malformed stream (wrong sizes, contradictory mode "
+        "of shapes with pairwise distinct extents; ALWAYS (not sampled) one case per outcome of every data-dependent "
+        "decision: tensor.mttkrps for every value of min_split on orders 3..6 plus the lopsided 4-way shapes, factor "
+        "list and Kruskal operand, factors without zeros; the Tucker innerprod / norm size switches (tensor smaller / "
+        "equal / larger than the core, first core larger / equal / smaller); the sparse ttv and contract densify "
+        "switch (fill none / one / half / half+1 / full) for vector and multiway results with the contracted modes "
+        "leading / trailing / inner and several non-adjacent stored entries per result cell; every sparse operand "
+        "stored in lexicographic, first-index-fastest, reversed or shuffled order (tagged stored:*); every sparse "
+        "result must store each subscript once and its own full() must equal the sum of its stored entries; "
+        "the same array held five ways; plus a malformed stream (wrong sizes, contradictory mode "
         "designations). Each implementation result is compared with the Lean spec value (sum over indices) and with "
         "the Lean model. non-trivial = accepted and operand has a non-zero entry; distinct = distinct case hash")
 ASSUMPTIONS = [
@@ -211,8 +219,8 @@ def h_kruskal(rng, shape, R=None, weights=None, lo=-2, hi=2):
     return {"kind": "kruskal", "weights": list(weights), "factors": [rand_mat(rng, s, R, 0.15, lo, hi) for s in shape]}
 
 
-def h_tucker(rng, shape, lo=-2, hi=2):
-    cs = [rng.randint(1, 3) for _ in shape]
+def h_tucker(rng, shape, lo=-2, hi=2, cs=None):
+    cs = list(cs) if cs is not None else [rng.randint(1, 3) for _ in shape]
     core = np.array(gen.dense_data(rng, cs, 0.2), dtype=int).reshape(cs, order="F") if cs else np.array(1)
     core = np.clip(core, -3, 3)
     pat = rng.choice(["rand", "rand", "ones", "diag1", "zero", "mixed1"])
@@ -762,20 +770,39 @@ class TtvFam(C02Family):
                 shape = pick_shape(rng, 4, 4, 3)
                 X = rand_holder(rng, rng.choice(kinds), shape)
                 out.append(self.case(rng, X, rng.choice(subsets(4)), rng.choice(CONVS)))
-        # the 50 % switch of the sparse code, hit on purpose: exactly k result cells are non-zero
-        nsw = 25 if tier == "quick" else 150
-        for _ in range(nsw):
-            N = rng.randint(2, 4)
-            shape = pick_shape(rng, N, N)
-            sel = rng.choice([s for s in subsets(N) if len(s) < N])
+        # the 50 % switch of the sparse code, hit on purpose: exactly k result cells are non-zero.
+        # ALWAYS one case per (result kind: vector / multiway) x (fill below / at / just above / full / none)
+        # x (contracted modes leading / trailing / in the middle), each result cell fed by SEVERAL stored entries
+        # that are not adjacent in the stored order, stored in every order; then random ones.
+        plans = []
+        for shape, sel in (([3, 4], [0]), ([4, 3], [1]), ([2, 3, 4], [2]), ([2, 4, 3], [0]), ([3, 2, 4], [1]),
+                           ([2, 2, 3, 2], [2, 3]), ([2, 3, 2, 2], [0, 1]), ([2, 3, 4], [1, 2]), ([4, 2, 3], [0, 2])):
+            rem_ = [d for d in range(len(shape)) if d not in sel]
+            total_ = gen.numel([shape[d] for d in rem_])
+            for k_ in sorted({0, 1, total_ // 2, total_ // 2 + 1, total_}):
+                plans.append((shape, sel, k_))
+        if tier == "quick":
+            plans = plans[::2] + rng.sample(plans[1::2], 6)
+        nsw = 15 if tier == "quick" else 150
+        for it in range(len(plans) + nsw):
+            if it < len(plans):
+                shape, sel, kfix = plans[it]
+                shape, sel = list(shape), list(sel)
+                N = len(shape)
+            else:
+                kfix = None
+                N = rng.randint(2, 4)
+                shape = pick_shape(rng, N, N)
+                sel = rng.choice([s for s in subsets(N) if len(s) < N])
             rem = [d for d in range(N) if d not in sel]
             rshape = [shape[d] for d in rem]
             cells = gen.all_subs(rshape)
             total = len(cells)
-            k = rng.choice(sorted({0, 1, total // 2, min(total, total // 2 + 1), max(0, (total - 1) // 2), total}))
+            k = kfix if kfix is not None else rng.choice(
+                sorted({0, 1, total // 2, min(total, total // 2 + 1), max(0, (total - 1) // 2), total}))
             A = np.zeros(tuple(shape), dtype=int)
             pool = cells
-            edge = rng.choice(["any", "last-empty", "first-empty"])
+            edge = rng.choice(["any", "last-empty", "first-empty"]) if kfix is None else "any"
             if edge == "last-empty" and k < total:      # trailing result cells stay empty (length inferred from data?)
                 pool = cells[:-1]
             elif edge == "first-empty" and k < total:
@@ -784,14 +811,21 @@ class TtvFam(C02Family):
                 full = [0] * N
                 for d, x in zip(rem, cell):
                     full[d] = x
-                for d in sel:
-                    full[d] = rng.randrange(shape[d])
-                A[tuple(full)] = rng.choice([-3, -2, -1, 1, 2, 3])
-            X = h_sparse(A, rng)
-            c = self.case(rng, X, sel, rng.choice(CONVS), tag=[f"fill:{'lt' if 2*k < total else ('eq' if 2*k == total else 'gt')}"])
+                # several stored entries per result cell (positive vectors and values: no cancellation)
+                selcells = gen.all_subs([shape[d] for d in sel])
+                for sc in rng.sample(selcells, min(len(selcells), rng.randint(1, 3))):
+                    for d, x in zip(sel, sc):
+                        full[d] = x
+                    A[tuple(full)] = rng.choice([1, 2, 3])
+            X = h_sparse(A, rng, order=SP_ORDERS[it % len(SP_ORDERS)])
+            c = self.case(rng, X, sel, rng.choice(CONVS),
+                          tag=[f"fill:{'lt' if 2*k < total else ('eq' if 2*k == total else 'gt')}",
+                               "res:vector" if len(rem) == 1 else "res:multiway",
+                               "sel:trailing" if sel == list(range(N - len(sel), N)) else
+                               ("sel:leading" if sel == list(range(len(sel))) else "sel:inner")])
             # vectors without zeros so that the fill is exactly k
             shp = shape
-            byMode = {d: vec(rng, shp[d], 0.0) for d in range(N)}
+            byMode = {d: [rng.choice([1, 2, 3]) for _ in range(shp[d])] for d in range(N)}
             vs, dims, excl = designate(rng, N, sel, "dimsP", byMode, True)
             c.update({"vs": vs, "dims": dims, "excl": excl, "ws": [byMode[d] for d in sorted(sel)]})
             out.append(c)
@@ -935,11 +969,37 @@ class MttkrpsFam(C02Family):
 
     def gen(self, rng, tier):
         out = []
-        for _ in range(20 if tier == "quick" else 200):
+
+        def add(shape, ask, tag):
+            # distinct-looking factors: no zeros, R >= 2, so that a wrong Khatri-Rao order cannot cancel
+            R = rng.randint(2, 3)
+            fs = [gen.matrix(rng, s_, R, -3, 3, 0.0) for s_ in shape]
+            if ask:
+                w = weights_of(rng, R, rng.choice(["none1", "mixed1", "neg", "frac"]))
+                U, lam = {"kruskal": {"weights": w, "factors": fs}}, w
+            else:
+                U, lam = {"list": fs}, [1] * R
+            A = rand_array(rng, shape, 0.1, -3, 3)
+            out.append({"op": "mttkrps", "X": h_dense(A), "U": U, "fs": fs, "lam": lam,
+                        "tag": ["kruskalU" if ask else "listU", f"N{len(shape)}", f"split{min_split_rule(shape)}"] + tag})
+
+        # ALWAYS: every outcome of the split decision for every order 3..6 (extents kept small for 5 and 6),
+        # i.e. partial products that contract 0, 1, 2, ... modes at once on either side of the split
+        for N, cells, smax in ((3, 120, 7), (4, 200, 7), (5, 200, 4), (6, 260, 3)):
+            table = shapes_by_split(N, cells, smax)
+            for split in sorted(table):
+                cands = [sh for sh in table[split] if len(set(sh)) > 1] or table[split]
+                picks = rng.sample(cands, min(len(cands), 1 if tier == "quick" else 3))
+                for shape in picks:
+                    for ask in (False, True):
+                        add(shape, ask, ["enumerated"])
+        # the lopsided 4-way shapes named in the code's own comment plus singleton-mode variants
+        for shape in ([6, 4, 3, 2], [7, 2, 3, 2], [2, 2, 3, 5], [2, 3, 2, 7], [1, 2, 3, 4], [4, 1, 1, 3], [2, 2, 2, 2, 2],
+                      [2, 1, 2, 3, 2], [2, 2, 1, 2, 2, 2]):
+            add(shape, rng.random() < 0.5, ["fixed"])
+        for _ in range(12 if tier == "quick" else 150):
             shape = pick_shape(rng, 2, 4, 4)
-            U, fs, lam = k_operand(rng, shape, rng.random() < 0.5)
-            out.append({"op": "mttkrps", "X": rand_holder(rng, "dense", shape), "U": U, "fs": fs, "lam": lam,
-                        "tag": ["kruskalU" if "kruskal" in U else "listU"]})
+            add(shape, rng.random() < 0.5, ["sampled"])
         return with_layouts(rng, out)
 
 
@@ -959,7 +1019,20 @@ class InnerFam(C02Family):
                     shape = pick_shape(rng, 1, 4, 4 if tier == "thorough" else 3)
                     out.append({"op": "innerprod", "X": rand_holder(rng, a, shape), "Y": rand_holder(rng, b, shape),
                                 "tag": [f"{a}x{b}"]})
-        # the size switches of the Tucker code: core bigger / smaller than the tensor
+        # the size switches of the Tucker code, ONE CASE PER OUTCOME: tensor smaller / equal / larger than the
+        # core (innerprod with a dense or sparse tensor, norm), first core larger / equal / smaller than the
+        # second (innerprod of two Tucker tensors)
+        for shape, cs, tagv in (([2, 2], [3, 3], "tensor<core"), ([2, 3], [2, 3], "tensor=core"), ([3, 4], [2, 2], "tensor>core"),
+                                ([2, 1, 2], [2, 3, 1], "tensor<core"), ([3, 2, 2], [1, 2, 2], "tensor>core")):
+            for yk_ in ("dense", "sparse", "kruskal"):
+                T = h_tucker(rng, shape, cs=cs)
+                out.append({"op": "innerprod", "X": T, "Y": rand_holder(rng, yk_, shape), "tag": ["switch:" + tagv]})
+                out.append({"op": "innerprod", "X": rand_holder(rng, yk_, shape), "Y": T, "tag": ["switch:" + tagv, "reversed"]})
+            out.append({"op": "norm", "X": h_tucker(rng, shape, cs=cs), "tag": ["switch:" + tagv]})
+        for shape, c1, c2, tagv in (([3, 3], [3, 2], [2, 2], "core1>core2"), ([3, 3], [2, 2], [2, 2], "core1=core2"),
+                                    ([3, 2, 2], [1, 2, 1], [2, 2, 2], "core1<core2")):
+            out.append({"op": "innerprod", "X": h_tucker(rng, shape, cs=c1), "Y": h_tucker(rng, shape, cs=c2),
+                        "tag": ["switch:" + tagv]})
         for _ in range(6 if tier == "quick" else 40):
             shape = [rng.randint(1, 2) for _ in range(rng.randint(1, 3))]
             T = h_tucker(rng, shape)
@@ -1002,6 +1075,28 @@ class ContractCollapseScaleFam(C02Family):
                         s2 = list(shape)
                         s2[b] = s2[a] + 1
                         out.append({"op": "contract", "X": rand_holder(rng, kind, s2), "a": a, "b": b, "valid": False})
+                # contract: the densify switch of the sparse code, ONE CASE PER OUTCOME (fill of the result below /
+                # at / above 50 %, nothing on the diagonal), several diagonal entries per result cell, every stored order
+                if kind == "sparse":
+                    for shape, (p_, q_) in (([2, 3, 2], (0, 2)), ([3, 3, 4], (1, 0)), ([2, 2, 2, 3], (0, 1)), ([3, 2, 3, 2], (2, 0))):
+                        rem_ = [d for d in range(len(shape)) if d not in (p_, q_)]
+                        cells_ = gen.all_subs([shape[d] for d in rem_])
+                        for k_ in sorted({0, 1, len(cells_) // 2, len(cells_) // 2 + 1, len(cells_)}):
+                            A = np.zeros(tuple(shape), dtype=int)
+                            for cell in rng.sample(cells_, k_):
+                                for dg in rng.sample(range(shape[p_]), rng.randint(1, shape[p_])):
+                                    idx = [0] * len(shape)
+                                    for d, x in zip(rem_, cell):
+                                        idx[d] = x
+                                    idx[p_] = idx[q_] = dg
+                                    A[tuple(idx)] = rng.choice([1, 2, 3])
+                            for _ in range(2):  # off-diagonal clutter
+                                idx = [rng.randrange(e) for e in shape]
+                                if idx[p_] != idx[q_]:
+                                    A[tuple(idx)] = rng.choice([-2, 2])
+                            fill = "lt" if 2 * k_ < len(cells_) else ("eq" if 2 * k_ == len(cells_) else "gt")
+                            out.append({"op": "contract", "X": h_sparse(A, rng, order=SP_ORDERS[(k_ + len(out)) % len(SP_ORDERS)]),
+                                        "a": p_, "b": q_, "tag": [f"fill:{fill}"]})
                 # collapse: every subset, sorted / shuffled / default
                 for N in range(1, 5 if tier == "thorough" else 4):
                     shape = distinct_shape(rng, N, 2, 4) if N <= 3 else pick_shape(rng, N, N, 3)
@@ -1142,6 +1237,10 @@ class CrossFam(Family):
                 r3 = call(run_impl, {"op": "innerprod", "X": h, "Y": c["Y"], "lay": lay})
                 impl[kk] = (r1, r2, r3)
                 for r, s, nm in ((r1, spec_ttv, "ttv"), (r2, spec_mt, "mttkrp"), (r3, {"kind": "scalar", "value": spec_ip}, "innerprod")):
+                    if "ok" in r:
+                        rb = strip_reads(r["ok"])
+                        if rb:
+                            bad = bad or f"{nm} of the {kk} holder: {rb[0]}"
                     if "ok" not in r:
                         bad = bad or f"{nm} raised for the {kk} holder: {r.get('exc')}"
                     elif not same_value(r["ok"], s):
